@@ -58,7 +58,7 @@ EXPECTED_ACTIONS = 24
 
 def design_check(c):
     cfg = c.pick("OrderedStore_mc.cfg", "OrderedStore_mc_thorough.cfg")
-    r = c.tlc_must_pass(SPEC, cfg, workers=4, timeout=c.pick(600, 1500), coverage=True, heap="4g", tag="design")
+    r = c.tlc_must_pass(SPEC, cfg, workers=4, timeout=c.pick(900, 2400), coverage=True, heap="4g", tag="design")
     cov = parse_coverage(r.out)
     cov.pop("Init", None)
     untaken = sorted(a for a, (d, t) in cov.items() if t == 0)
